@@ -377,6 +377,27 @@ func runC08(w *mon.W) {
 			alpha = "ACGU" // an RNA spelling holds no T at all: its U codons are not the T codons of the table
 		}
 		seq := randCase(r, randString(r, alpha, n), []float64{0, 0.5, 1}[r.Intn(3)])
+		if k%16 == 15 {
+			// extreme counts: one or two codons fill a sequence of up to 10^5 letters (counts up to 33,333)
+			c1, c2 := randString(r, "ACGT", 3), randString(r, "ACGT", 3)
+			reps := []int{100000 / 3, 32768, 32767, 65536 / 3, 1 + r.Intn(33333)}[r.Intn(5)]
+			if w.Quick() && k%32 != 31 && reps > 11000 {
+				reps = 10923 // keep most quick cases short; every other one goes to the full length
+			}
+			var sb strings.Builder
+			for i := 0; i < reps; i++ {
+				if i%97 == 96 {
+					sb.WriteString(c2)
+				} else {
+					sb.WriteString(c1)
+				}
+			}
+			seq = randCaseBlocks(r, sb.String()+randString(r, "ACGT", r.Intn(3)), 5000)
+			n = len(seq)
+			w.Add("counting_cases_with_extreme_counts", 1)
+		} else if r.Intn(5) == 0 {
+			seq = randCaseBlocks(r, strings.ToUpper(seq), 300)
+		}
 		w.Begin(id, seq)
 		t := deepTable(tid)
 		var t2 codon.Table
